@@ -90,6 +90,10 @@ func (fs *FS) Mount(path string) (mount hackpadfs.FS, subPath string) {
 }
 
 func (fs *FS) mountPoint(path string) (_ hackpadfs.FS, mountPoint, subPath string) {
+	if !hackpadfs.ValidPath(path) {
+		// never rewrite an invalid path into a valid one (e.g. "mnt/" into "."): hand it to the root FS unchanged, which rejects it
+		return fs.rootFS, ".", path
+	}
 	var resultPath string
 	resultFS := fs.rootFS
 	fs.mounts.Range(func(key, value interface{}) bool {
